@@ -75,13 +75,31 @@ def decision_check(ctx, F, rule, sfx, which):
                 'create' if want else 'skip', w, key_extra='table:%s' % dtab.fmt_env(env))
     else:
         ctx.ok(rule, '%s:table%s' % (which, sfx), '%d rows over %s agree' % (2 ** len(T.names), ','.join(T.names)), REQ_TXT[which], w)
+    # every tetrahedron of a plane that has (or gets) a record is accumulated into it: the first one and all later ones (record already there).
+    # Rows "record exists although the decision is skip" cannot occur (a record exists only where the decision was create) and are not constrained.
+    if s.collects:
+        Tc, rc = faces.reached_table(s, s.collects, raw=True)
+        badc = []
+        for env in Tc.rows():
+            want = faces.required(which, env)
+            if env['AC'] and not want:
+                continue
+            got = rc.get(tuple(env[n] for n in Tc.names), 0) > 0
+            if got != want:
+                badc.append((env, got, want))
+        if badc:
+            env, got, want = badc[0]
+            ctx.bad(rule, '%s:every-tetrahedron-of-a-reported-plane-accumulated%s' % (which, sfx), '%d rows differ; e.g. [%s] -> %s' % (len(badc), dtab.fmt_env(env), 'collected' if got else 'dropped'),
+                    'collected' if want else 'dropped', where(b, s.collects[0].line), key_extra='collect-table:%s' % dtab.fmt_env(env))
+        else:
+            ctx.ok(rule, '%s:every-tetrahedron-of-a-reported-plane-accumulated%s' % (which, sfx), 'collect reached on exactly the rows of reported planes (first and later tetrahedra)', 'collect <=> plane reported', where(b, s.collects[0].line))
     return s, reach, T
 
 
 REQ_TXT = {
     'direct': 'V and (not(RS and SN) or GT or (MS and not MR))',
     'integrals': 'V',
-    'sym': 'AC ? V : V and not(SN and RS and not GT and MR)',
+    'sym': 'V and not(SN and RS and not GT and MR)  (decided when the first tetrahedron of the plane arrives)',
 }
 
 
